@@ -511,8 +511,10 @@ def generate(rng, tier):
     for s in rng.sample(nbase, 500 * mult):
         for e in edits(rng, s, 2):
             add_nmap(e)
+    # (representatives for the exhaustive neighbourhood must be short: an element beyond the int-from-str digit
+    # limit would have 4300 x |alphabet| neighbours of 4300 characters each)
     for s in ['1.2.3.4', '10.0.0-1.1,3-5', '1.2.3.-4', '9.8.7.250-', '10.0.0.0/30', '::1'] + \
-            ['.'.join(nmap_octet(rng) for _ in range(4)) for _ in range(2 * mult)]:
+            [r for r in ('.'.join(nmap_octet(rng) for _ in range(4)) for _ in range(2 * mult)) if len(r) <= 80]:
         for e in all_edits(s):
             add_nmap(e)
     for _ in range(300 * mult):
